@@ -249,6 +249,10 @@ func (s *Session) GetActiveStreamCount() int {
 // OpenStream is used to create a new stream
 func (s *Session) OpenStream() (*Stream, error) {
 	if s.IsClosed() {
+		if s.shutdownErr == nil {
+			// Close has marked the session as shut down but has not recorded the reason yet
+			return nil, ErrSessionShutdown
+		}
 		return nil, s.shutdownErr
 	}
 	if !s.IsHealthy() {
